@@ -30,9 +30,10 @@ LEVEL_NOTE = ("Trusted: Coq kernel + stdlib real axioms (reported per obligation
               "rounding. Per-cell hyperparameter overrides (register_cell keywords) are not a theorem: the theorems are per cell in "
               "its EFFECTIVE hyperparameters; that every trainer reads the per-cell state (and not its constructor defaults) is "
               "checked by the correspondence / oracle on groups of cells driven by one trainer object. Known finding: "
-              "LinearHomeostasis' depressing part is negative-valued (tests pin it). Finding candidate: forward(target=None) "
-              "of a LinearHomeostasis trainer with several cells uses the FIRST cell's default target for all later cells "
-              "(model targets_used, theorem target_carryover_refuted).")
+              "LinearHomeostasis' depressing part is negative-valued (tests pin it). Formerly: forward(target=None) "
+              "of a LinearHomeostasis trainer with several cells used the FIRST cell's default target for all later cells "
+              "- found by this check, REPAIRED upstream (6f3edbb); the old loop is kept as the refuted variant targets_used_old "
+              "(old_target_carryover_refuted), corpus/C09/04 is the regression case and a recurrence is a VIOLATION.")
 LEVEL_TEXT = ("Machine-checked (Coq, reals), for ALL spike histories, batch sizes, signals, reductions and the four sign modes: "
               "both parts of every STDP / StableSTDP / TripletSTDP / StableTripletSTDP / MSTDP / MSTDPET call and of the "
               "accumulator are >= 0 - invariant 'every recorded trace is >= 0' along arbitrary runs, delays on or off the grid "
@@ -56,15 +57,15 @@ LEVEL_TEXT = ("Machine-checked (Coq, reals), for ALL spike histories, batch size
               "change is minus the documented one [homeo_rates_above_target_moves_away, "
               "homeostasis_always_spiking_raises_weight, homeostasis_refuted, homeostasis_delay_refuted, "
               "homeostasis_breaks_soft_bounds]; which target each cell of one trainer sees: an explicit forward(target) reaches "
-              "every cell, the cell's own default only when the defaults coincide - otherwise REFUTED "
-              "[targets_used_explicit, targets_used_same_default, target_carryover_refuted].")
+              "every cell, otherwise each cell sees its own default, RuntimeError exactly for the cells without any "
+              "[targets_used_is_doc, targets_used_default, targets_used_none_iff]; the pre-repair loop refuted "
+              "[old_target_carryover_refuted].")
 EXPLANATION = LEVEL_TEXT
 HEADER = ("From Coq Require Import List ZArith Bool PrimFloat.\n"
           "From Inferno Require Import Base.Num Base.NumF C08.Stdp C09.Split C09.SplitExec.\n"
           "Import ListNotations.\nOpen Scope float_scope.\n")
 IMPL = os.path.join(F.VERIF, "tools", "impl", "c09_impl.py")
 FINDING_KIND = "homeostasis_negative_depression"
-CARRY_KIND = "homeostasis_target_carryover"
 
 TRAINERS = ["STDP", "StableSTDP", "TripletSTDP", "StableTripletSTDP", "MSTDP", "MSTDPET"]
 TWO_FACTOR = ("STDP", "StableSTDP", "TripletSTDP", "StableTripletSTDP")
@@ -206,9 +207,7 @@ def gen_homeo(rng, force=None):
 
 
 def homeo_tg(case, t, which="used"):
-    """the target of step t: "used" = the one the code reads (mirrors forward(), including its carry-over of the first
-    cell's default to the later cells of a group), "doc" = the documented one (explicit forward target, else the cell's
-    own default).  Single cells: the one target of the case."""
+    """the target of step t (explicit forward target, else the cell's own default).  Single cells: the one target of the case."""
     if "tg_used" in case:
         return case["tg_" + which][t]
     return case["target"]
@@ -241,20 +240,16 @@ def q_homeo(case, units):
 
 
 def annotate_homeo_group(defaults, cells):
-    """per cell and step the target the code uses and the documented one (None: RuntimeError expected)"""
+    """per cell and step the target forward() uses = the documented one: the explicit forward target, else the cell's own
+    default (None: RuntimeError expected).  The value the MODEL uses is computed inside Coq (targets_used); "tg_used" is
+    only the harness' copy of it for the rate / error bookkeeping."""
     T = len(cells[0]["post"])
     fwd = cells[0].get("fwd_targets") or [None] * T
     dflt = [(c["target_reg"] if "target" in c.get("override_keys", []) else defaults.get("target_ctor")) for c in cells]
     for j, c in enumerate(cells):
-        c["tg_used"], c["tg_doc"] = [], []
         c["grp_dflts"], c["grp_index"] = dflt, j
-    for t in range(T):
-        cur = fwd[t]
-        for c, d in zip(cells, dflt):
-            if cur is None:
-                cur = d            # forward(): `if target is None: target = state.target` rebinds the argument
-            c["tg_used"].append(cur)
-            c["tg_doc"].append(fwd[t] if fwd[t] is not None else d)
+        c["tg_doc"] = [fwd[t] if fwd[t] is not None else dflt[j] for t in range(T)]
+        c["tg_used"] = list(c["tg_doc"])
 
 
 def red_apply(name, xs):
@@ -322,7 +317,7 @@ def oracle_homeo(case, impl):
     fails = []
     acc_p = [0.0] * len(e2g)
     acc_n = [0.0] * len(e2g)
-    seen_finding = seen_carry = False
+    seen_finding = False
     for t in range(T):
         for b in range(B):
             for u in range(n_tot):
@@ -339,7 +334,6 @@ def oracle_homeo(case, impl):
                         red_apply(red, [max(-k, 0.0) for k in ks]),        # depressing MAGNITUDE of the documented split
                         red_apply(red, [min(k, 0.0) for k in ks]))         # negative-valued pattern of the known finding
             ks, want_p, want_n, clampmax = expect("doc")
-            carried = homeo_tg(case, t, "used") != homeo_tg(case, t, "doc")
             for e in [e for e, gg in enumerate(e2g) if gg == g]:
                 gp = 0.0 if pos is None else pos[e]
                 gn = 0.0 if neg is None else neg[e]
@@ -348,19 +342,6 @@ def oracle_homeo(case, impl):
                 ok_p = F.close(gp, want_p, ab=1e-11)
                 ok_n = F.close(gn, want_n, ab=1e-11) and gn >= 0
                 pat_n = F.close(gn, clampmax, ab=1e-11)
-                if not (ok_p and (ok_n or pat_n)) and carried:
-                    _, up, un, uc = expect("used")
-                    if F.close(gp, up, ab=1e-11) and (F.close(gn, un, ab=1e-11) or F.close(gn, uc, ab=1e-11)):
-                        if not seen_carry:
-                            seen_carry = True
-                            fails.append(({"what": "forward(target=None): the cell's own default target is ignored, the default of "
-                                                   "the first cell of the trainer is used instead (forward rebinds its `target` "
-                                                   "argument inside the loop over cells)", "step": t, "element": e,
-                                           "cell_default_target": homeo_tg(case, t, "doc"),
-                                           "target_used": homeo_tg(case, t, "used"), "pos_part": gp,
-                                           "pos_part_for_own_target": want_p},
-                                          {"kind": CARRY_KIND, "param": param}))
-                        continue
                 if not ok_p:
                     fails.append(({"what": "potentiating part differs from max(k, 0) of the documented rule", "step": t,
                                    "element": e, "got": gp, "want": want_p, "target": homeo_tg(case, t, "doc")},
@@ -635,7 +616,7 @@ def gen_homeo_group(rng, gid, expect_error=False):
                 "reduction": rng.choice([None, None, "mean", "sum", "amax"]),
                 "target_ctor": rng.choice([None, rng.choice(TARGETS), rng.choice(TARGETS)])}
     T = rng.randint(1, 6)
-    ncell = 1 if expect_error else rng.randint(2, 3)
+    ncell = rng.randint(1, 3) if expect_error else rng.randint(2, 3)
     cells = []
     for j in range(ncell):
         c = gen_homeo(rng)
@@ -664,11 +645,18 @@ def gen_homeo_group(rng, gid, expect_error=False):
     fwd = [None if mode == "none" or (mode == "mixed" and rng.random() < 0.5) else rng.choice(TARGETS) for _ in range(T)]
     dflt = [(c["target_reg"] if "target" in c["override_keys"] else defaults["target_ctor"]) for c in cells]
     if expect_error:
-        # no default anywhere and no explicit target at the last step: forward must raise RuntimeError
-        defaults["target_ctor"] = None
-        cells[0]["override_keys"] = [k for k in cells[0]["override_keys"] if k != "target"]
+        # one cell (the first or a LATER one) has no default target at all and the last call passes none: forward must
+        # raise RuntimeError for that cell, whatever defaults the other cells have
+        v = rng.randrange(ncell)
+        keys = [k for k in cells[v]["override_keys"] if k != "target"]
+        if defaults["target_ctor"] is not None:
+            keys.append("target")
+            cells[v]["target_reg"] = None
+        cells[v]["override_keys"] = keys
         fwd[-1] = None
-        cells[0]["expect_error"] = True
+        fwd[:-1] = [f if f is not None else rng.choice(TARGETS) for f in fwd[:-1]]
+        for c in cells:
+            c["expect_error"] = True
     elif any(d is None for d in dflt):
         # a cell without a default target: every call must pass an explicit target
         fwd = [f if f is not None else rng.choice(TARGETS) for f in fwd]
@@ -949,8 +937,7 @@ def run(ctx):
     # printed as FINDING-CANDIDATE before
     nh = sum(1 for c in cases if c['kind'] == 'homeo')
     cands = [f for f in fails if (f.get("signature") or {}).get("kind") == FINDING_KIND]
-    carry = [f for f in fails if (f.get("signature") or {}).get("kind") == CARRY_KIND]
-    oracle_failures = [f for f in fails if (f.get("signature") or {}).get("kind") not in (FINDING_KIND, CARRY_KIND)]
+    oracle_failures = [f for f in fails if (f.get("signature") or {}).get("kind") != FINDING_KIND]
     if cands and known_listed(FINDING_KIND):
         oracle_failures += cands[:3]
     elif cands:
@@ -958,13 +945,6 @@ def run(ctx):
               f"updater, so pos - neg = |k| and the parameter moves away from the target ({len(cands)} of {nh} homeostasis cases; "
               f"signature kind={FINDING_KIND}; NOT yet listed in known_findings.json; witness: LinearDense 1x1, target 0.5, "
               f"plasticity 1, one step with a spike -> weight +1)")
-    if carry and known_listed(CARRY_KIND):
-        oracle_failures += carry[:3]
-    elif carry:
-        print(f"FINDING-CANDIDATE: property={ID} LinearHomeostasis.forward(target=None) rebinds its `target` argument to the FIRST "
-              f"cell's default inside the loop over cells, so every later cell of the trainer is regulated toward the first cell's "
-              f"target instead of its own default ({len(carry)} cells in groups with differing per-cell targets; signature "
-              f"kind={CARRY_KIND}; NOT yet listed in known_findings.json; witness: corpus/C09/04_homeostasis_target_carryover.json)")
     homeo = [c for c in cases if c["kind"] == "homeo"]
     stdp = [c for c in cases if c["kind"] == "stdp"]
     cells = [c for c in cases if c["kind"] == "cell"]
@@ -999,7 +979,6 @@ def run(ctx):
         "homeo_param_distribution": dict(Counter(c["param"] for c in homeo)),
         "homeo_conn_distribution": dict(Counter(c["conn"] for c in homeo)),
         "homeo_cases_showing_the_finding": len(cands),
-        "homeo_cells_showing_target_carryover": len(carry),
         "groups_one_trainer_several_cells": len({c["group"] for c in cases if c.get("group") is not None}),
         "cells_registered_with_overrides": sum(1 for c in cases if c.get("override_keys")),
         "override_key_distribution": dict(Counter(k for c in cases for k in c.get("override_keys", []))),
@@ -1025,8 +1004,7 @@ def run(ctx):
 def _fails(case):
     cs = expand_groups([copy.deepcopy(case)])
     _, mm, of = evaluate(cs)
-    of = [f for f in of if not ((f.get("signature") or {}).get("kind") in (FINDING_KIND, CARRY_KIND)
-                                and known_listed((f.get("signature") or {}).get("kind")))]
+    of = [f for f in of if not ((f.get("signature") or {}).get("kind") == FINDING_KIND and known_listed())]
     if of:
         return of[0]["detail"]
     if mm:
